@@ -364,6 +364,14 @@ fn op_evaluate_v<T: Evaluate + Num>(c: &Value) -> Vec<u64> {
     let xs: Vec<f64> = u64s(&c["xs"]).iter().map(|&x| f(x)).collect();
     pw.evaluate_v(xs).map(|r| r.to_bits()).collect()
 }
+// batch answers followed by the answers of the direct route (Piecewise::evaluate) on the same arguments
+fn op_evaluate_v_pt<T: Evaluate + Num>(c: &Value) -> Vec<u64> {
+    let pw = Piecewise { segments: parse_segs::<T>(&c["segs"]) };
+    let xs: Vec<f64> = u64s(&c["xs"]).iter().map(|&x| f(x)).collect();
+    let mut o: Vec<u64> = pw.evaluate_v(xs.clone()).map(|r| r.to_bits()).collect();
+    o.extend(xs.iter().map(|&x| pw.evaluate(x).to_bits()));
+    o
+}
 // laziness: the number of inputs pulled when k outputs have been taken must be exactly k
 fn op_evaluate_v_lazy<T: Evaluate + Num>(c: &Value) -> Vec<u64> {
     let pw = Piecewise { segments: parse_segs::<T>(&c["segs"]) };
@@ -507,6 +515,44 @@ fn op_arbitrary<T: Num + for<'a> arbitrary::Arbitrary<'a>>(c: &Value) -> Vec<u64
         }
     }
 }
+// Piecewise<Piecewise<T>>: the piece decoder of the outer function can fail (inner end list empty or not normal)
+fn op_arbitrary_nested<T: Num + for<'a> arbitrary::Arbitrary<'a>>(c: &Value) -> Vec<u64> {
+    let bytes: Vec<u8> = u64s(&c["bytes"]).iter().map(|&b| b as u8).collect();
+    let mut u = arbitrary::Unstructured::new(&bytes);
+    match <Piecewise<Piecewise<T>> as arbitrary::Arbitrary>::arbitrary(&mut u) {
+        Err(_) => vec![0],
+        Ok(pw) => {
+            let mut o = vec![1, pw.segments.len() as u64];
+            for s in pw.segments.iter() {
+                o.push(s.end.to_bits());
+                o.extend(dump_segs(&s.poly.segments));
+            }
+            o
+        }
+    }
+}
+fn op_arb_eval_nested<T: Num + Evaluate + for<'a> arbitrary::Arbitrary<'a>>(c: &Value) -> Vec<u64> {
+    let bytes: Vec<u8> = u64s(&c["bytes"]).iter().map(|&b| b as u8).collect();
+    let mut u = arbitrary::Unstructured::new(&bytes);
+    match <Piecewise<Piecewise<T>> as arbitrary::Arbitrary>::arbitrary(&mut u) {
+        Err(_) => vec![0],
+        Ok(pw) => {
+            let mut xs: Vec<f64> = u64s(&c["xs"]).iter().map(|&x| f(x)).collect();
+            let mut o = vec![1];
+            let mut ev = PiecewiseEvaluator::new(&pw.segments);
+            for &x in xs.iter() {
+                o.push(pw.evaluate(x).to_bits());
+                o.push(ev.evaluate(x).to_bits());
+            }
+            xs.sort_by(|a, b| a.partial_cmp(b).unwrap_or(std::cmp::Ordering::Equal));
+            for (x, r) in xs.iter().zip(pw.evaluate_v(xs.clone())) {
+                o.push(pw.evaluate(*x).to_bits());
+                o.push(r.to_bits());
+            }
+            o
+        }
+    }
+}
 // the external decoder on its own: Vec<f64> from the same bytes, plus how many bytes are left
 fn op_arb_vec_f64(c: &Value) -> Vec<u64> {
     let bytes: Vec<u8> = u64s(&c["bytes"]).iter().map(|&b| b as u8).collect();
@@ -622,6 +668,7 @@ fn run_case(c: &Value) -> Vec<u64> {
         "evaluator" => t_all!(ty; op_evaluator(c)),
         "evaluate_v" => t_all!(ty; op_evaluate_v(c)),
         "evaluate_v_lazy" => t_all!(ty; op_evaluate_v_lazy(c)),
+        "evaluate_v_pt" => t_all!(ty; op_evaluate_v_pt(c)),
         "pw_derivative" => t_poly!(ty; op_pw_derivative(c)),
         "pw_integral" => t_integrable!(ty; op_pw_integral(c)),
         "pw_indefinite" => t_integrable!(ty; op_pw_indefinite(c)),
@@ -646,6 +693,8 @@ fn run_case(c: &Value) -> Vec<u64> {
         "polyn_eval" => op_polyn_eval(c),
         "polyn_translate" => op_polyn_translate(c),
         "arbitrary" => t_poly!(ty; op_arbitrary(c)),
+        "arbitrary_nested" => t_poly!(ty; op_arbitrary_nested(c)),
+        "arb_eval_nested" => t_poly!(ty; op_arb_eval_nested(c)),
         "arb_vec_f64" => op_arb_vec_f64(c),
         "arb_eval" => t_poly!(ty; op_arb_eval(c)),
         "approx" => t_seg_all!(ty; op_approx(c)),
